@@ -17,7 +17,11 @@ UNITS = {
     "merkle_set": {"template": "contracts/merkle_set.vrs", "rlimit": 60},
     "tree_hash": {"template": "contracts/tree_hash.vrs", "rlimit": 60},
     "streamable_core": {"template": "contracts/streamable_core.vrs", "rlimit": 60},
-    "streamable_derived": {"generator": {"crates": ("chia-protocol",)}, "rlimit": 60},
+    "streamable_derived_0": {"generator": {"crates": ("chia-protocol",), "part": 0, "parts": 3, "out_name": "streamable_derived_0"}, "rlimit": 60},
+    "streamable_derived_1": {"generator": {"crates": ("chia-protocol",), "part": 1, "parts": 3, "out_name": "streamable_derived_1"}, "rlimit": 60},
+    "streamable_derived_2": {"generator": {"crates": ("chia-protocol",), "part": 2, "parts": 3, "out_name": "streamable_derived_2"}, "rlimit": 60},
+    "streamable_handwritten": {"generator": {"crates": ("chia-protocol",), "part": "hw", "out_name": "streamable_handwritten"}, "rlimit": 60,
+                               "known_clauses": ("r matches Ok(v) ==> v.hashable(),",)},
 }
 
 
@@ -30,10 +34,11 @@ def N(name, task, tier="quick"):
     return {"kind": "native", "name": name, "task": task, "tier": tier}
 
 
-def V(unit, tier="quick"):
+def V(unit, tier="quick", exclude_clause=None):
     u = UNITS[unit]
     return {"kind": "verus", "unit": unit, "template": u.get("template"), "generator": u.get("generator"),
-            "rlimit": u.get("rlimit", 30), "tier": tier}
+            "rlimit": u.get("rlimit", 30), "tier": tier, "exclude_clause": exclude_clause,
+            "known_clauses": u.get("known_clauses", ())}
 
 
 NOT_BUILT = "check not built yet in this session (design in DESIGN.md §5); will be claimed once its contract unit verifies"
@@ -133,13 +138,15 @@ PROPS["C13"] = {
     "level": "proof",
     "technique": "Verus trait-level contract on the real Streamable trait and impls (extracted verbatim; macro arms expanded by token substitution): stream/update_digest/parse all against one accumulator-style encoding spec enc_onto",
     "level_text": "Deductive proof, modular over the trait: for every impl under contract, stream appends exactly enc, update_digest absorbs exactly enc (so hash == sha256(enc)), and whenever parse (trusted or not: same contract) returns a value the consumed bytes are exactly that value's encoding (canonicity); from_bytes accepts only inputs that are entirely the encoding.",
-    "level_note": "Covered impls: 10 integer primitives, bool, (), Option<T>, tuples 2-4, Vec<T>, Bytes, BytesImpl<N>, trait default methods. Not yet: String, [T;N], Program, BLS elements, derived structs, hand-written versioned codecs (listed in not_covered). The decode(encode(x)) == x direction is argued by composition (prefix-free encodings) and not machine-checked.",
-    "components": [V("streamable_core"), V("streamable_derived")],
+    "level_note": "Covered impls: 10 integer primitives, bool, (), Option<T>, tuples 2-4, Vec<T>, Bytes, BytesImpl<N>, trait default methods, all 112 derive(Streamable) structs of chia-protocol (from rustc's expansion, spec generated from the declarations) and the 6 hand-written codecs (FullBlock, UnfinishedBlock, ProofOfSpace incl. the v2 quality-string hash, RewardChainBlock, SubEpochSummary, SubEpochData with the shared-prefix optional helper). Opaque with assumed contract: String, [T;N], Program, BLS elements, derived enums. The decode(encode(x)) == x direction is argued by composition (prefix-free encodings) and not machine-checked.",
+    # the `hashable` clause of parse (hashing a decoded value is defined) is C14's statement, decided there
+    "components": [V("streamable_core")] + [V(u, exclude_clause=r"v\.hashable\(\)") for u in
+                   ("streamable_derived_0", "streamable_derived_1", "streamable_derived_2", "streamable_handwritten")],
     "assumptions": _STREAM_ASSUME,
     "not_covered": [
         "round-trip direction decode(encode(x)) == x (needs prefix-freeness lemmas per type)",
-        "String, [T;N], Program, PublicKey/Signature impls",
-        "derive(Streamable) impls outside chia-protocol (chia-consensus owned conditions, chia-datalayer); derived enums; the 6 hand-written codecs (FullBlock, UnfinishedBlock, ProofOfSpace, RewardChainBlock, SubEpochSummary, SubEpochData)",
+        "String, [T;N], Program, PublicKey/Signature impls and derived enums (declared opaque with an assumed Streamable contract)",
+        "derive(Streamable) impls outside chia-protocol (chia-consensus owned conditions, chia-datalayer)",
     ],
 }
 PROPS["C14"] = {
@@ -147,11 +154,12 @@ PROPS["C14"] = {
     "technique": "Verus safety obligations generated from the real decoder bodies: every index, cast, addition, unwrap and loop in read_bytes and the covered impls; explicit allocation-cap obligation on Vec::with_capacity; from_bytes trailing/missing-bytes postcondition",
     "level_text": "Deductive proof that for every byte string and cursor position, read_bytes and every covered parse impl neither index out of range nor overflow (pos <= len is an invariant of every parse), terminate (loops bounded by the u32 length prefix), allocate at most 2 MiB up front, and from_bytes rejects trailing or missing bytes; stream/update_digest/hash have no precondition beyond what parse establishes (wf).",
     "level_note": "Same impl coverage and assumptions as C13. Memory = capacity argument of with_capacity; time = iteration counts.",
-    "components": [V("streamable_core"), V("streamable_derived")],
+    "components": [V("streamable_core"), V("streamable_derived_0"), V("streamable_derived_1"), V("streamable_derived_2"),
+                   V("streamable_handwritten"), N("native_pos_v2_hash", "pos_v2_hash")],
     "assumptions": _STREAM_ASSUME,
     "not_covered": [
         "String, [T;N], Program (serialized_length_from_bytes), BLS element decoders",
-        "derived impls and hand-written versioned codecs (ProofOfSpace hash of a non-validating v2 proof is a reproduced defect, see DESIGN §7, not yet under contract)",
+        "derive(Streamable) impls outside chia-protocol",
     ],
 }
 
